@@ -105,7 +105,8 @@ def build_drivers(names, variant="hooks"):
              "rule cc", "  command = $cc -O1 -g -I%s/products/libllbuild/include %s -MMD -MF $out.d -c $in -o $out" % (REPO, san),
              "  depfile = $out.d", "  deps = gcc",
              "rule link", "  command = $cxx %s $in $extralibs %s -o $out" % (san, " ".join(SYSLIBS)), ""]
-    allsrc = sorted(f for f in os.listdir(src) if f.endswith(".cpp") or f.endswith(".c"))
+    # *_shim.c are LD_PRELOAD libraries built by the check that uses them, not line-protocol drivers
+    allsrc = sorted(f for f in os.listdir(src) if (f.endswith(".cpp") or f.endswith(".c")) and not f.rsplit(".", 1)[0].endswith("_shim"))
     for f in allsrc:
         base = f.rsplit(".", 1)[0]
         rule = "cxx" if f.endswith(".cpp") else "cc"
